@@ -30,8 +30,73 @@ def ref_rev(v, w):
     return out
 
 
+def spaced_search():
+    """guided search for the _create_spaced_kmers contract"""
+    from replayers.common import run_search
+    KA = "sequence/align/kmeralphabet.pyx"
+    rng = random.Random(0)
+    inputs = []
+    for _ in range(70):
+        k = rng.randint(2, 3)
+        span = rng.randint(k, k + 3)
+        sp = sorted(rng.sample(range(span - 1), k - 1)) + [span - 1] if span > 1 else [0]
+        sp = sorted(set(sp))
+        while len(sp) < k:
+            sp.append(sp[-1] + 1)
+        n = rng.randint(max(0, sp[-1] - 1), sp[-1] + 5)
+        code = [rng.randrange(4) if rng.random() < 0.93 else rng.randrange(4, 7) for _ in range(n)]
+        inputs.append({"k": k, "spacing": sp, "code": code})
+
+    def expected(inp):
+        k, sp, code = inp["k"], inp["spacing"], inp["code"]
+        span = sp[-1] + 1
+        if len(code) < span:
+            return "ValueError"
+        out = []
+        for i in range(len(code) - span + 1):
+            v = 0
+            for j in range(k):
+                c = code[i + sp[j]]
+                if c >= 4:
+                    return "AlphabetError"
+                v += 4 ** (k - 1 - j) * c
+            out.append(v)
+        return out
+
+    def compiled(inp):
+        import numpy as np
+        import biotite.sequence as seq
+        import biotite.sequence.align as align
+        ka = align.KmerAlphabet(seq.NucleotideSequence.alphabet_unamb, inp["k"], spacing=inp["spacing"])
+        return {"value": ka.create_kmers(np.array(inp["code"], dtype=np.uint8)).tolist()}
+
+    def oracle(inp, out):
+        exp = expected(inp)
+        if out.get("outcome") == "raise":
+            return None if out.get("exception") == exp else f"raised {out.get('exception')}, expected {exp}"
+        if out.get("outcome") != "return":
+            return f"outcome {out.get('outcome')}"
+        return None if out["value"] == exp else f"k-mer codes {out['value']}, the definition gives {exp}"
+
+    def to_args(inp):
+        k = inp["k"]
+        return [{"obj": "KmerAlphabet", "attrs": {"_k": k, "_spacing": {"array": inp["spacing"], "ctype": "int64", "memview": False},
+                                                  "_radix_multiplier": {"array": [4 ** (k - 1 - j) for j in range(k)], "ctype": "int64", "memview": False},
+                                                  "_base_alph": {"array": [0, 1, 2, 3], "ctype": None, "memview": False}}},
+                {"array": inp["code"], "ctype": "uint8"}]
+    return run_search(KA, KA + "::KmerAlphabet._create_spaced_kmers", inputs, to_args, oracle, compiled_call=compiled,
+                      label="KmerAlphabet._create_spaced_kmers")
+
+
 def main():
     rec = json.load(open(sys.argv[1]))
+    if "_create_spaced_kmers" in rec.get("case", ""):
+        try:
+            rep, detail = spaced_search()
+        except Exception:
+            rep, detail = None, "replayer error: " + traceback.format_exc()[-700:]
+        finish(rep, detail)
+        return
     try:
         rng = random.Random(0)
         inputs = []
